@@ -84,20 +84,20 @@ type vWorld struct {
 	pending []*vCall
 	seq     int
 	// ground truth
-	sampled   map[uint64]bool // answered ok / outside-window at least once
-	everFail  map[uint64]bool
-	lastFail  map[uint64]time.Time // time of the last failure answer in this instance
-	calls     int
+	sampled  map[uint64]bool // answered ok / outside-window at least once
+	everFail map[uint64]bool
+	lastFail map[uint64]time.Time // time of the last failure answer in this instance
+	calls    int
 
 	storeHead uint64
 	tail      uint64
 
-	ds      *vDatastore
-	subCh   chan *header.ExtendedHeader
-	lastCP  string // last persisted checkpoint (JSON)
-	cpErr   string // first checkpoint-coverage violation
-	bgPrev  uint64
-	inTick  bool
+	ds     *vDatastore
+	subCh  chan *header.ExtendedHeader
+	lastCP string // last persisted checkpoint (JSON)
+	cpErr  string // first checkpoint-coverage violation
+	bgPrev uint64
+	inTick bool
 }
 
 // availability
@@ -164,9 +164,9 @@ func (s vStore) Get(context.Context, libhead.Hash) (*header.ExtendedHeader, erro
 func (s vStore) GetRangeByHeight(context.Context, *header.ExtendedHeader, uint64) ([]*header.ExtendedHeader, error) {
 	panic("unused")
 }
-func (s vStore) Height() uint64                                    { return s.w.storeHead }
-func (s vStore) Has(context.Context, libhead.Hash) (bool, error)   { panic("unused") }
-func (s vStore) HasAt(context.Context, uint64) bool                { panic("unused") }
+func (s vStore) Height() uint64                                          { return s.w.storeHead }
+func (s vStore) Has(context.Context, libhead.Hash) (bool, error)         { panic("unused") }
+func (s vStore) HasAt(context.Context, uint64) bool                      { panic("unused") }
 func (s vStore) Append(context.Context, ...*header.ExtendedHeader) error { panic("unused") }
 func (s vStore) GetRange(context.Context, uint64, uint64) ([]*header.ExtendedHeader, error) {
 	panic("unused")
@@ -255,6 +255,10 @@ const (
 	phStopped
 )
 
+// vProp selects which property's oracles are evaluated ("C04" or "C13"): a violation of the
+// sibling property must neither be reported nor prune the exploration of this one.
+var vProp = "C04"
+
 type dasSys struct {
 	t   *testing.T
 	cfg dasCfg
@@ -267,7 +271,7 @@ type dasSys struct {
 
 	lastCount map[uint64]int
 	seenJobs  map[int]bool // job ids already judged by the back-off oracle (this instance)
-	err       error // first violation observed (sticky)
+	err       error        // first violation observed (sticky)
 	hist      []string
 }
 
@@ -567,7 +571,7 @@ func (s *dasSys) observe() {
 	if s.err != nil {
 		return
 	}
-	if s.w.cpErr != "" {
+	if s.w.cpErr != "" && vProp == "C04" {
 		s.fail("%s", s.w.cpErr)
 		return
 	}
@@ -589,47 +593,61 @@ func (s *dasSys) observe() {
 	npend := len(w.pending)
 	w.mu.Unlock()
 
-	// ---- C04: coverage of every height in [tail, networkHead]
-	if st.NetworkHead != w.storeHead {
-		s.fail("C04/head-not-learned: stats.NetworkHead=%d but newest announced head is %d", st.NetworkHead, w.storeHead)
-		return
-	}
-	for h := w.tail; h <= st.NetworkHead; h++ {
-		if w.sampled[h] {
-			continue
-		}
-		if h > st.CatchupHead {
-			continue // still queued for catch-up
-		}
-		if _, ok := st.Failed[h]; ok {
-			continue
-		}
-		cov := ""
-		for _, wk := range st.Workers {
-			if wk.Curr <= h && h <= wk.To && wk.From <= h {
-				cov = string(wk.JobType)
-			}
-		}
-		if cov != "" {
-			continue
-		}
-		how := "running"
-		if len(s.hist) > 0 {
-			for _, e := range s.hist {
-				if e == "start" {
-					how = "after-restart"
-				}
-			}
-		}
-		s.fail("C04/height-lost/%s: height %d is not sampled, not queued (catchup head %d), not in a worker, not failed; stats=%s",
-			how, h, st.CatchupHead, statsStr(st))
-		return
-	}
-	for h := w.tail; h <= st.SampledChainHead && h <= st.NetworkHead; h++ {
-		if !w.sampled[h] {
-			s.fail("C04/sampled-head-too-high: SampledChainHead=%d but height %d was never sampled; stats=%s", st.SampledChainHead, h, statsStr(st))
+	if vProp == "C04" {
+		// ---- C04: coverage of every height in [tail, networkHead]
+		if st.NetworkHead != w.storeHead {
+			s.fail("C04/head-not-learned: stats.NetworkHead=%d but newest announced head is %d", st.NetworkHead, w.storeHead)
 			return
 		}
+		for h := w.tail; h <= st.NetworkHead; h++ {
+			if w.sampled[h] {
+				continue
+			}
+			if h > st.CatchupHead {
+				continue // still queued for catch-up
+			}
+			if _, ok := st.Failed[h]; ok {
+				continue
+			}
+			cov := ""
+			for _, wk := range st.Workers {
+				if wk.Curr <= h && h <= wk.To && wk.From <= h {
+					cov = string(wk.JobType)
+				}
+			}
+			if cov != "" {
+				continue
+			}
+			how := "running"
+			if len(s.hist) > 0 {
+				for _, e := range s.hist {
+					if e == "start" {
+						how = "after-restart"
+					}
+				}
+			}
+			s.fail("C04/height-lost/%s: height %d is not sampled, not queued (catchup head %d), not in a worker, not failed; stats=%s",
+				how, h, st.CatchupHead, statsStr(st))
+			return
+		}
+		for h := w.tail; h <= st.SampledChainHead && h <= st.NetworkHead; h++ {
+			if !w.sampled[h] {
+				s.fail("C04/sampled-head-too-high: SampledChainHead=%d but height %d was never sampled; stats=%s", st.SampledChainHead, h, statsStr(st))
+				return
+			}
+		}
+
+	}
+	// statistics agree with what was actually sampled (C13's reading of the same observable)
+	if vProp == "C13" {
+		for h := w.tail; h <= st.SampledChainHead && h <= st.NetworkHead; h++ {
+			if !w.sampled[h] {
+				s.fail("C13/stats-sampled-head: SampledChainHead=%d but height %d was never sampled; stats=%s", st.SampledChainHead, h, statsStr(st))
+				return
+			}
+		}
+	} else {
+		return
 	}
 
 	// ---- C13: bounds
@@ -824,7 +842,7 @@ func (s *dasSys) Close() {
 // statistics request); the DASer must reach CatchUpDone with every height of [tail, head]
 // sampled within a bounded number of rounds.
 func (s *dasSys) drain(hist []string) error {
-	if s.err != nil {
+	if s.err != nil || vProp != "C13" {
 		return nil
 	}
 	rounds := 6*int(s.cfg.MaxHeight) + 8*s.cfg.Limit + 12
@@ -895,6 +913,7 @@ func vSig(err error) string {
 }
 
 func runDasCheck(t *testing.T, prop string) {
+	vProp = prop
 	logging.SetAllLoggers(logging.LevelFatal)
 	rep := vx.NewReport(prop, "model_checking")
 	rep.Rule = "explicit-state BFS over event histories of the real das.DASer (events: head announcement h+1/h+2/dup/stale, " +
@@ -936,7 +955,7 @@ func runDasCheck(t *testing.T, prop string) {
 			}
 		}
 	}
-	deadline := rep.Deadline(100*time.Second, 40*time.Minute)
+	deadline := rep.Deadline(150*time.Second, 40*time.Minute)
 	exhaustive := true
 	var mu sync.Mutex
 	allEvents := map[string]int64{}
@@ -1013,6 +1032,7 @@ func replayDas(t *testing.T, rep *vx.Report, path, prop string) {
 	if err := json.Unmarshal(b, &doc); err != nil {
 		t.Fatalf("replay: %v", err)
 	}
+	vProp = prop
 	vRetryOrder = doc.Replay.Cfg.RetryOrder
 	var verr error
 	for i := 0; i < 5; i++ {
